@@ -9,7 +9,8 @@ A unit template (units/<unit>.rs) is ordinary Verus text with directive comments
   //@ .ret r                                  name the return value   (D3)
   //@ .spec                                   requires/ensures/decreases text, spliced before the body (D3)
   //@     ensures r == spec_gamma(self),
-  //@ .loop <k>                               invariant/decreases text for the k-th loop of the body (D3)
+  //@ .loop <k> [as <name>]                   invariant/decreases text for the k-th loop of the body; `as it` names the
+  //@                                         ghost iterator (`for x in it: e`) (D3)
   //@ .closure "<text prefix>" as "<header>"  annotate a closure: header replaces |params|, body gets braces (D3)
   //@     ensures ...
   //@ .hint before "<statement text prefix>"  ghost proof block inserted before a statement (D4)
@@ -126,21 +127,24 @@ def head_matches(head, want):
 
 def locate(src, path):
     """path: list of headers from outermost container to the item. Returns
-    (start_sig_index_of_keyword, body_open, end) of the item."""
-    lo, hi = 0, len(src.sig)
-    found = None
-    for depth, want in enumerate(path):
+    (start_sig_index_of_keyword, body_open, end) of the item.  Several containers with the
+    same header (e.g. two `impl Atom` blocks) are all searched; the item itself must be unique."""
+    def rec(lo, hi, depth):
+        want = path[depth]
         cands = [c for c in find_children(src, lo, hi) if head_matches(c[1], want)]
-        if not cands:
-            raise ExtractError("lost-anchor", f"{src.rel}: no item `{want}` (path {' :: '.join(path)})")
-        if len(cands) > 1:
-            raise ExtractError("lost-anchor", f"{src.rel}: {len(cands)} items match `{want}`")
-        found = cands[0]
-        if depth + 1 < len(path):
-            if found[2] is None:
-                raise ExtractError("lost-anchor", f"{src.rel}: `{want}` has no body")
-            lo, hi = found[2] + 1, found[3]
-    return found
+        if depth + 1 == len(path):
+            return cands
+        out = []
+        for c in cands:
+            if c[2] is not None:
+                out += rec(c[2] + 1, c[3], depth + 1)
+        return out
+    found = rec(0, len(src.sig), 0)
+    if not found:
+        raise ExtractError("lost-anchor", f"{src.rel}: no item `{' :: '.join(path)}`")
+    if len(found) > 1:
+        raise ExtractError("lost-anchor", f"{src.rel}: {len(found)} items match `{' :: '.join(path)}`")
+    return found[0]
 
 
 def item_start_pos(src, kw_index):
@@ -447,9 +451,21 @@ def adapt_function(text, where, subs, report):
                 idx.append(k)
             k += 1
         for sd in loops:
-            n = int(sd["args"].strip())
+            la = sd["args"].split()
+            n = int(la[0])
             if n < 1 or n > len(idx):
                 raise ExtractError("lost-anchor", f"{where}: loop {n} not found ({len(idx)} loops)")
+            if len(la) == 3 and la[1] == "as":
+                # name the ghost iterator: `for PAT in EXPR` -> `for PAT in NAME: EXPR`
+                if sig[idx[n - 1]].text != "for":
+                    raise ExtractError("template", f"{where}: loop {n} is not a for loop")
+                m = idx[n - 1] + 1
+                while not (sig[m].kind == "ident" and sig[m].text == "in"):
+                    if sig[m].text in "([":
+                        m = match_close(sig, m)
+                    m += 1
+                ft.edits.append((sig[m].e, 0, f" {la[2]}:"))
+                ads.append({"rule": "D3", "what": f"loop {n}: ghost iterator named `{la[2]}`"})
             k = idx[n - 1] + 1
             while True:
                 t = sig[k]
